@@ -10,8 +10,9 @@
    w_ctype = self.vtkCellType;  w_nodal / w_cell = self.nodalFields / self.cellFields (insertion-ordered dicts with
    Python overwrite semantics);  w_spheres = zip(self.spheres, self.sphereRadii);  w_edges = self.contactEdges.
    The mesh is immutable, so the two gathers the code repeats in every write() are done once in [init].
-   [write] returns the token list AND the new state: _write_nodal_fields pads self.nodalFields in place and inserts
-   'sphere_radius'. *)
+   [write] returns the token list AND the state after the call.  Since the repairs 2cde078 / 34184b3 / 07417cb the
+   code pads LOCAL copies of the nodal / cell field dicts (for the sphere points / contact-edge cells), sizes sphere_radius
+   with the output-node count and counts the edge cells in CELL_DATA, so the state returned is the state given. *)
 From Coq Require Import ZArith List Bool PeanoNat.
 Import ListNotations.
 
@@ -143,21 +144,25 @@ Definition emit_types (w : writer) : list tok :=
 
 Definition is_nil {A} (l : list A) : bool := match l with [] => true | _ => false end.
 
-(* _write_nodal_fields: tokens and the new self.nodalFields *)
-Definition nodal_step (w : writer) : list tok * fields :=
+(* _write_nodal_fields: nodalFields = dict(self.nodalFields) is padded (one default row per sphere) and, with spheres,
+   gets the key 'sphere_radius' (zeros for the output nodes, then the radii); self.nodalFields is not touched *)
+Definition written_nodal (w : writer) : fields :=
   let nsph := length (w_spheres w) in
-  if is_nil (w_nodal w) && is_nil (w_spheres w) then ([], w_nodal w) else
-    let nodal1 := map (fun nf => (fst nf, pad_field nsph (snd nf))) (w_nodal w) in
-    let nodal2 := if is_nil (w_spheres w) then nodal1
-                  else dict_set nodal1 sr_name (sphere_field (w_nall w) (map snd (w_spheres w))) in
-    let nnodes := if is_nil (w_spheres w) then length (w_points w) else w_nall w in
-    ([TK KPointData; tnat (nnodes + nsph)] ++ emit_fields nodal2, nodal2).
+  let nodal1 := map (fun nf => (fst nf, pad_field nsph (snd nf))) (w_nodal w) in
+  if is_nil (w_spheres w) then nodal1
+  else dict_set nodal1 sr_name (sphere_field (length (w_points w)) (map snd (w_spheres w))).
+Definition emit_pointdata (w : writer) : list tok :=
+  if is_nil (w_nodal w) && is_nil (w_spheres w) then []
+  else [TK KPointData; tnat (length (w_points w) + length (w_spheres w))] ++ emit_fields (written_nodal w).
+(* _write_cell_fields: cellFields = dict(self.cellFields) padded with one default row per contact edge *)
+Definition written_cell (w : writer) : fields :=
+  map (fun nf => (fst nf, pad_field (length (w_edges w)) (snd nf))) (w_cell w).
 Definition emit_celldata (w : writer) : list tok :=
-  if is_nil (w_cell w) then [] else [TK KCellData; tnat (length (w_cells w))] ++ emit_fields (w_cell w).
+  if is_nil (w_cell w) then []
+  else [TK KCellData; tnat (length (w_cells w) + length (w_edges w))] ++ emit_fields (written_cell w).
 
 Definition write (w : writer) : list tok * writer :=
-  (header ++ emit_points w ++ emit_cells w ++ emit_types w ++ fst (nodal_step w) ++ emit_celldata w,
-   set_nodal w (snd (nodal_step w))).
+  (header ++ emit_points w ++ emit_cells w ++ emit_types w ++ emit_pointdata w ++ emit_celldata w, w).
 
 Fixpoint writes (n : nat) (w : writer) : list (list tok) :=
   match n with O => [] | S m => fst (write w) :: writes m (snd (write w)) end.
@@ -300,7 +305,7 @@ Definition abs_pd (w : writer) : option (nat * list array) :=
   Some (length (w_points w) + nsph,
         map to_array (if is_nil (w_spheres w) then user
                       else dict_set user sr_name (sphere_field (length (w_points w)) (map snd (w_spheres w))))).
-(* every written cell (mesh elements and contact-edge cells) carries one record *)
+(* every written cell (mesh elements and contact-edge cells) carries one record: zeros on the edge cells *)
 Definition abs_cd (w : writer) : option (nat * list array) :=
   if is_nil (w_cell w) then None else
   Some (length (w_cells w) + length (w_edges w),
@@ -359,22 +364,13 @@ Definition rpe (ft : ftype) : nat := match ft with TENSORS => 3 | _ => 1 end.   
 Definition field_ok (n : nat) (f : field) : Prop :=
   length (f_rows f) = n * rpe (f_ft f) /\ Forall (fun r => length r = width (f_ft f)) (f_rows f).
 Definition dict_ok (n : nat) (d : fields) : Prop := NoDup (map fst d) /\ Forall (fun nf => field_ok n (snd nf)) d.
-(* nodal dict: the entry under the reserved key 'sphere_radius' is rewritten by every write() with spheres, so its stored
-   rows are irrelevant then; every other entry has one record per output node *)
-Definition nodal_ok (w : writer) : Prop :=
-  NoDup (map fst (w_nodal w))
-  /\ Forall (fun nf => (fst nf = sr_name /\ w_spheres w <> []) \/ field_ok (length (w_points w)) (snd nf)) (w_nodal w).
 Definition wf_writer (w : writer) : Prop :=
   length (w_outnodes w) = length (w_points w)
   /\ Forall (fun c => length c = w_k w) (w_cells w)
-  /\ nodal_ok w /\ dict_ok (length (w_cells w)) (w_cell w).
+  /\ dict_ok (length (w_points w)) (w_nodal w) /\ dict_ok (length (w_cells w)) (w_cell w).
 (* element and contact-edge connectivity refers to written points *)
 Definition in_range (w : writer) : Prop :=
   Forall (Forall (fun i => i < length (w_points w) + length (w_spheres w))) (abs_cells w).
-(* the three conditions under which the faithful model meets the property (each is violated by one known defect) *)
-Definition all_nodes_written_if_spheres (w : writer) : Prop := w_spheres w = [] \/ w_nall w = length (w_points w).
-Definition no_cell_data_with_edges (w : writer) : Prop := w_cell w = [] \/ w_edges w = [].
-Definition only_sphere_radius (w : writer) : Prop := forall nm, In nm (map fst (w_nodal w)) -> nm = sr_name.
 (* meaning of [data_ok]: the declared count is n and every array has exactly one record per entity *)
 Definition data_spec (n : nat) (d : option (nat * list array)) : Prop :=
   forall m arrs, d = Some (m, arrs) -> m = n /\ forall a, In a arrs -> length (a_vals a) = n * ncomp (a_ft a).
